@@ -462,9 +462,20 @@ func c11Encode(toks []c11Tok) (tables [][]byte, err error) {
 
 // ---------------------------------------------------------------------------------- running the real parser
 
+// The table handles are the caller's choice (any uint8): they are varied with the input (first table 1, 0, 42
+// or 253, the following ones counting up; predefined scopes tagged 0 or 42, which may coincide with a table).
+func c11Handles(tables [][]byte) (base, dflt uint8) {
+	n := 0
+	for _, t := range tables {
+		n += len(t)
+	}
+	return []uint8{1, 0, 42, 253}[n%4], []uint8{0, 42}[(n/4)%2]
+}
+
 func c11Parse(tables [][]byte) (tree *ObjectTree, res string, msg string, passes []int) {
+	base, dflt := c11Handles(tables)
 	tree = NewObjectTree()
-	tree.CreateDefaultScopes(0)
+	tree.CreateDefaultScopes(dflt)
 	var errb bytes.Buffer
 	p := NewParser(&errb, tree)
 	res = "ok"
@@ -481,7 +492,7 @@ func c11Parse(tables [][]byte) (tree *ObjectTree, res string, msg string, passes
 		header.Signature = [4]byte{'D', 'S', 'D', 'T'}
 		header.Length = uint32(len(stream))
 		header.Revision = 2
-		err := p.ParseAML(uint8(i+1), "T"+strconv.Itoa(i+1), header)
+		err := p.ParseAML(base+uint8(i), "T"+strconv.Itoa(i+1), header)
 		passes = append(passes, int(p.resolvePasses)) // merge/relocate passes the parser took (evidence only)
 		if err != nil {
 			return tree, "error", strings.TrimSpace(errb.String()), passes
@@ -650,7 +661,7 @@ func c11Term1(tree *ObjectTree, o *Object, depth int) c11Term {
 
 // c11Project walks the tree from the root scope: the children of a scope block are the objects of
 // that scope; the scope of a scoped object is the scope block among its arguments.
-func c11Project(tree *ObjectTree) (ns []c11Entry, calls []c11Call) {
+func c11Project(tree *ObjectTree, base uint8) (ns []c11Entry, calls []c11Call) {
 	ns, calls = []c11Entry{}, []c11Call{}
 	budget := 1 << 20
 	var walk func(scope *Object, path []string)
@@ -715,9 +726,9 @@ func c11Project(tree *ObjectTree) (ns []c11Entry, calls []c11Call) {
 		}
 		if o.opcode == pOpIntMethodCall {
 			t := c11Term1(tree, o, 0)
-			calls = append(calls, c11Call{Tab: int(o.tableHandle), P: c11Strs(t.P), A: t.A, off: o.amlOffset})
+			calls = append(calls, c11Call{Tab: int(o.tableHandle-base) + 1, P: c11Strs(t.P), A: t.A, off: o.amlOffset})
 		} else if o.opcode == pOpIntNamePathOrMethodCall {
-			calls = append(calls, c11Call{Tab: int(o.tableHandle), P: []string{"<unresolved>"}, A: []c11Term{c11Term1(tree, o, 0)}, off: o.amlOffset})
+			calls = append(calls, c11Call{Tab: int(o.tableHandle-base) + 1, P: []string{"<unresolved>"}, A: []c11Term{c11Term1(tree, o, 0)}, off: o.amlOffset})
 		}
 		for _, a := range c11Args(tree, o) {
 			find(a, depth+1)
@@ -750,7 +761,8 @@ func c11RunOne(toks []c11Tok) c11Obs {
 					obs = c11Obs{Res: "panic", Err: "projection: " + fmt.Sprint(r), NS: []c11Entry{}, Calls: []c11Call{}}
 				}
 			}()
-			obs.NS, obs.Calls = c11Project(tree)
+			base, _ := c11Handles(tables)
+			obs.NS, obs.Calls = c11Project(tree, base)
 		}()
 	}
 	return obs
